@@ -5,6 +5,7 @@ mod clock;
 mod conn;
 mod crdt;
 mod ks;
+mod parse;
 mod place;
 mod recov;
 mod repl;
@@ -61,6 +62,7 @@ fn main() {
         "ks" => ks::main(rest),
         "shard" => shard::main(rest),
         "conn" => conn::main(rest),
+        "parse" => parse::main(rest),
         m => {
             eprintln!("unknown module {m}");
             2
